@@ -83,8 +83,16 @@ func runC17(p *eng.Prog, r *eng.Report, tier string) {
 				for _, res := range rs.Results[:1] {
 					k := f.Norm(res, &pt)
 					if strings.Contains(k, "styling.startsBlockQuote(") {
-						okr, whyr := g.DominatedAny(pt, []string{"or(!eq(builtin.len(p0)," + k + ") | *", "!eq(builtin.len(p0)," + k + ")", "lt(" + k + ",builtin.len(p0))", "p1"})
-						c.r.Check("C17.2", f, "run-length token does not end at the end of the buffer", "G: a token whose extent was found by scanning a run is emitted only if the run ended before the end of the buffer or the input ends here", rs.Pos(), okr, whyr)
+						okr, whyr := false, "no dominating fact compares the end of the run with the end of the buffer AND asks whether the next character is complete"
+						for _, fa := range g.FactsAt(pt) {
+							if fa == "p1" {
+								okr = true
+							}
+							if strings.Contains(fa, "!eq(builtin.len(p0),"+k+")") && strings.Contains(fa, "unicode/utf8.FullRune(p0["+k+":])") && !strings.Contains(fa, "!unicode/utf8.FullRune(") {
+								okr = true
+							}
+						}
+						c.r.Check("C17.2", f, "run-length token does not end at the end of the buffer", "G: a token whose extent was found by scanning a run is emitted only if the run ended before the end of the buffer AND the next character is complete, or the input ends here (a partial multi-byte white space after '>' belongs to the run)", rs.Pos(), okr, whyr)
 						runTok++
 					}
 				}
@@ -227,6 +235,10 @@ func runC17(p *eng.Prog, r *eng.Report, tier string) {
 			case rhs == "recv.spanStack[:(builtin.len(recv.spanStack) - 1)]":
 				pop++
 				c.dom("C17.4", sp, w.Stmt, "span stack pop", []string{"eq(rangeval(p0),recv.spanStack[(builtin.len(recv.spanStack) - 1)])", "lt(0,builtin.len(recv.spanStack))"})
+				// ... and under nothing else: the closer of the innermost open
+				// span always closes it (an extra condition leaves a span open
+				// at the end of its line)
+				c.onlyFacts("C17.4", sp, w.Stmt, "span stack pop", []string{"eq(rangeval(p0),recv.spanStack[(builtin.len(recv.spanStack) - 1)])", "lt(0,builtin.len(recv.spanStack))", "rangenext(p0)", "!eq(rangeval(p0),10)", "lt(*", "!lt(*", "!eq(*,10)", "or(*", "eq(rangekey(p0),0)", "!eq(rangekey(p0),0)"})
 			default:
 				c.r.Check("C17.4", sp, "span stack write", "the stack is only pushed and popped", w.Stmt.Pos(), false, "spanStack = "+rhs)
 			}
